@@ -165,6 +165,75 @@ def check_vector(v):
     return {"n": n, "nt": nt, "bad": bad}
 
 
+B_FORMATS = ["bed3", "bed6", "bed12", "bedgraph", "narrowpeak", "chromsizes", "gfa", "fasta", "fastq"]
+
+
+def record_trace(job):
+    """binding B: a grammar-generated file (C02's generator) read eagerly and written again"""
+    import random
+    import bionumpy as bnp
+    tid, seed, d = job
+    rng = random.Random(seed)
+    fmt = rng.choice(B_FORMATS)
+    text = C02._gen_file(rng, fmt)
+    # header / comment lines are the subject of the header variants above: the generated file is taken without them
+    nl = "\r\n" if "\r\n" in text else "\n"
+    if fmt not in ("fasta", "fastq"):
+        text = "".join(l + nl for l in text.split(nl) if l and not l.startswith("#"))
+    if not text.endswith("\n"):
+        text += "\n"
+    data = text.encode("latin-1")
+    suffix, buf = C02._open_kw(fmt)
+    kw = {"buffer_type": buf} if buf is not None else {}
+    src = os.path.join(d, "b%d_%d%s" % (os.getpid(), tid, suffix))
+    dst = os.path.join(d, "bw%d_%d%s" % (os.getpid(), tid, suffix))
+
+    def go():
+        with open(src, "wb") as f:
+            f.write(data)
+        t = bnp.open(src, lazy=False, **kw).read()
+        w = bnp.open(dst, "w", **kw)
+        w.write(t)
+        w.close()
+        return list(open(dst, "rb").read())
+    o = outcome(go)
+    for p in (src, dst):
+        if os.path.exists(p):
+            os.remove(p)
+    return {"tid": tid, "fmt": fmt, "text": list(data), "written": o}
+
+
+def validate_traces(ctx, recs):
+    items, bad = [], []
+    for r in recs:
+        if r["written"][0] != "ok":
+            bad.append({"what": "reading a well-formed %s file eagerly and writing the table raised" % r["fmt"], "tags": {"format": r["fmt"], "kind": "raises", "binding": "B", "target": "plain"},
+                        "vector": {"fmt": r["fmt"], "text": r["text"]}, "expected": "canonical bytes", "observed": r["written"][1], "case": {"text": bytes(r["text"]).decode("latin-1")[:300]}})
+        else:
+            items.append({"tid": len(items), "fmt": r["fmt"], "text": r["text"], "written": r["written"][1]})
+    path = os.path.join(ctx.work, "c03_traces.json")
+    with open(path, "w") as f:
+        json.dump(items, f)
+    res = ctx.tlc("Trace_C03", workers=1, env={"TRACE_FILE": path}, init="Init", next_="Next", postcondition="Post", timeout=3000)
+    rej, acc = {}, None
+    for line in res.printed:
+        parts = [p.strip().strip('"') for p in line.strip("<>").split(",")]
+        if parts[0] == "REJECT":
+            rej[int(parts[1])] = parts[2:]
+        elif parts[0] == "ACCEPTED":
+            acc = int(parts[1])
+    if acc is None or acc + len(rej) != len(items):
+        raise core.MachineryFailure("Trace_C03 bookkeeping mismatch %s %s %s" % (acc, len(rej), len(items)))
+    for tid, why in rej.items():
+        t = items[tid]
+        k = int(why[0])
+        bad.append({"what": "bytes written for an eagerly read %s file are not the canonical serialisation of what its text means (first difference at byte %d)" % (t["fmt"], k),
+                    "tags": {"format": t["fmt"], "kind": "bytes", "binding": "B", "target": "plain"}, "vector": {"fmt": t["fmt"], "text": t["text"]},
+                    "expected": "Formats.tla!Serialise(Parse(text))", "observed": bytes(t["written"]).decode("latin-1")[max(0, k - 40):k + 40],
+                    "case": {"text": bytes(t["text"]).decode("latin-1")[:300]}})
+    return bad, acc
+
+
 def run(ctx):
     quick = ctx.tier == "quick"
     vectors = []
@@ -184,6 +253,13 @@ def run(ctx):
         v["_dir"] = ctx.work
     ctx.sample({k: vectors[9][k] for k in ("fmt", "picks", "pieces", "header")})
     ctx.absorb(core.pmap(check_vector, vectors, chunk=10))
+    # binding B: generated field contents (grammar files of C02) read eagerly and written again; TLC decides written = Serialise(Parse(text))
+    ntr = 150 if quick else 1500
+    recs = core.pmap(record_trace, [(i, ctx.seed * 104729 + i, ctx.work) for i in range(ntr)], chunk=10)
+    bad, acc = validate_traces(ctx, recs)
+    for b in bad:
+        ctx.disagree(b)
+    ctx.count(evaluations=len(recs), traces=acc, nontrivial_keys=["B|%d" % r["tid"] for r in recs])
     ctx.exhaustive = True
     return ctx.finish(RULE, assumptions=[
         "tables are built in memory from the specification's values (from_entry_tuples); only the VCF header variant reads its table from a file, because a header "
